@@ -27,6 +27,8 @@ type stubTransport struct {
 	inner   xmpp.Transport
 	pingErr error
 	onWrite func(p []byte) // called with the bytes of every Write before it returns (C07: response racing the request)
+	// writeFault, when set, may take over a Write: handled = true returns (n, err) to the caller instead of writing
+	writeFault func(p []byte, inner xmpp.Transport) (handled bool, n int, err error)
 }
 
 func (s *stubTransport) Connect() (string, error) {
@@ -80,6 +82,11 @@ func (s *stubTransport) Write(p []byte) (int, error) {
 	if s.onWrite != nil {
 		s.onWrite(p)
 	}
+	if s.writeFault != nil {
+		if h, n, err := s.writeFault(p, s.inner); h {
+			return n, err
+		}
+	}
 	if s.inner != nil {
 		return s.inner.Write(p)
 	}
@@ -128,6 +135,9 @@ type c18Case struct {
 	// StreamClose (end to end only): the session ends because the server sends </stream:stream> and keeps the TCP
 	// connection open, instead of a cut of the connection
 	StreamClose bool `json:"stream_close,omitempty"`
+	// TLS (end to end only): the session was upgraded with STARTTLS, so the keepalive has to travel inside the TLS
+	// stream like every other byte
+	TLS bool `json:"tls,omitempty"`
 }
 
 func genC18(t *rapid.T) c18Case {
@@ -147,6 +157,7 @@ func genC18(t *rapid.T) c18Case {
 	c.EndToEnd = rapid.IntRange(0, 3).Draw(t, "e2e") == 0
 	if c.EndToEnd {
 		c.StreamClose = rapid.Bool().Draw(t, "streamClose")
+		c.TLS = rapid.Bool().Draw(t, "tls")
 	}
 	return c
 }
@@ -249,19 +260,28 @@ func runC18E2E(c c18Case) vh.Result {
 	if c.StreamClose {
 		res.Label("ended-by-stream-close")
 	}
+	if c.TLS {
+		res.Label("over-starttls")
+	}
 	interval := time.Duration(c.IntervalMs) * time.Millisecond
 	res.NonTrivial = true
 	var pconn *peer.Conn
 	established := make(chan struct{})
 	cut := make(chan struct{})
+	probe := make(chan struct{})
 	srv, err := peer.Listen(func(pc *peer.Conn) {
 		pconn = pc
-		out := pc.Negotiate(&peer.Script{Mechs: []string{"PLAIN"}}, 10*time.Second)
+		out := pc.Negotiate(&peer.Script{Mechs: []string{"PLAIN"}, OfferTLS: c.TLS, Cert: "valid"}, 10*time.Second)
 		if !out.Established {
 			return
 		}
 		close(established)
 		go func() {
+			select {
+			case <-probe:
+				pc.Send(`<message id="c18-probe" type="chat" from="a@b/c" to="user@localhost/res"><body>still there</body></message>`)
+			case <-cut:
+			}
 			<-cut
 			if c.StreamClose {
 				pc.Send("</stream:stream>") // the socket stays open: only the stream has ended
@@ -276,7 +296,7 @@ func runC18E2E(c c18Case) vh.Result {
 		return res
 	}
 	defer srv.Close()
-	cl, rec, _, err := newTestClientCfg(srv.Addr, clientOpt{Insecure: true, Keepalive: interval})
+	cl, rec, _, err := newTestClientCfg(srv.Addr, clientOpt{Insecure: !c.TLS, Keepalive: interval})
 	if err != nil {
 		res.Fail("harness", "NewClient: %v", err)
 		return res
@@ -345,6 +365,26 @@ func runC18E2E(c c18Case) vh.Result {
 		if !waitFor(vh.Margin(3*time.Second)+100*interval, func() bool { k, _ := wsBytes(); return k >= 1 }) {
 			res.Fail("t/keepalive-not-sent", "%s: no keepalive reached the server within 100 intervals + margin", desc)
 		}
+	}
+	// the keepalives did no harm: the session is still up and a stanza sent now is routed
+	if n := rec.count(xmpp.StateDisconnected); n > 0 {
+		_, errs, _ := rec.snapshot()
+		res.Fail("session-lost-while-keepalives-flow", "%s: the server did nothing but read, yet the session was reported lost after %v (errors %v)", desc, time.Since(start), errs)
+		return res
+	}
+	close(probe)
+	if !waitFor(vh.Margin(3*time.Second), func() bool {
+		_, _, pk := rec.snapshot()
+		for _, p := range pk {
+			if _, id := packetID(p); id == "c18-probe" {
+				return true
+			}
+		}
+		return false
+	}) {
+		_, errs, _ := rec.snapshot()
+		res.Fail("t/session-dead-after-keepalives", "%s: a message sent after %d keepalive bytes was not routed (errors %v, %d Disconnected events)", desc, n, errs, rec.count(xmpp.StateDisconnected))
+		return res
 	}
 	// session end: cut the connection, keepalives must stop
 	close(cut)
